@@ -40,6 +40,10 @@ Mechs == <<
   [m |-> "oauth2_introspection", policy |-> <<"assertions">>,
    inputs |-> <<"ep_url", "ep_headers", "credential", "ep_auth", "ep_apikey">>,
    shifts |-> <<"ep_headers.k|v", "ep_auth.k|v", "ep_apikey.k|v">>, hdr |-> TRUE, val |-> FALSE, hdrdef |-> 2],
+  (* the same authenticator configured by the server's metadata document (endpoint and issuer discovered) *)
+  [m |-> "oauth2_introspection_md", policy |-> <<"assertions">>,
+   inputs |-> <<"credential">>,
+   shifts |-> <<>>, hdr |-> FALSE, val |-> FALSE, hdrdef |-> 2],
   [m |-> "jwt_jwk", policy |-> <<>>,
    inputs |-> <<"ep_headers", "issuer", "kid">>,
    shifts |-> <<"issuer|kid">>, hdr |-> TRUE, val |-> FALSE, hdrdef |-> 1],
@@ -57,7 +61,7 @@ Mechs == <<
    inputs |-> <<"client_id", "client_secret", "token_url", "scopes">>,
    shifts |-> <<"client_id|client_secret", "token_url|scopes", "scopes.a|b">>, hdr |-> FALSE, val |-> TRUE, hdrdef |-> 0],
   [m |-> "httpcache", policy |-> <<>>,
-   inputs |-> <<"url", "method", "authorization", "body", "url_case", "url_query_case">>,
+   inputs |-> <<"url", "method", "authorization", "body", "url_case", "url_query_case", "authorization_case">>,
    shifts |-> <<"url|method">>, hdr |-> FALSE, val |-> FALSE, hdrdef |-> 0]
 >>
 
